@@ -1072,6 +1072,8 @@ func (fv *funcVerifier) assertIteration(body *State, spec *LoopSpec, key string,
 	}
 	env := fv.loopEnv(body)
 	for _, e := range spec.Iteration {
-		fv.assertNoAssume(body, "iteration", key+":"+e.String(), pos, env.evalBool(e))
+		if ct, cok := env.evalClause(e); cok {
+			fv.assertNoAssume(body, "iteration", key+":"+e.String(), pos, ct)
+		}
 	}
 }
